@@ -23,7 +23,12 @@ Counter = collections.Counter
 
 def gen_case(r, hashseed):
   kind = r.choice(['ground', 'ground', 'deep', 'deep', 'deep+ground'])
-  if kind == 'ground':
+  preset = None
+  if kind == 'ground' and r.random() < 0.3:
+    # a grounded base read through nested WITH helpers by several grounded readers
+    program = gen.gen_withchain(r)
+    preset = program['ground']
+  elif kind == 'ground':
     program = gen.gen_nonrecursive(r, n_idb=r.randint(3, 6))
   else:
     program, family, main = gen.gen_recursive(r, r.choice([21, 22, 23, 30, 41, 22, 21]))
@@ -38,6 +43,8 @@ def gen_case(r, hashseed):
     cands = [n for n in idb if n not in recursive and n not in fnames] or []
     if kind == 'deep+ground' and not cands:
       kind = 'deep'
+    elif preset is not None:
+      program['ground'] = preset
     elif cands:
       program['ground'] = sorted(set(r.sample(cands, min(len(cands), r.choice([1, 1, 2, 3])))))
   k = r.choice([1, 2, 2, 3, len(idb)])
